@@ -886,10 +886,12 @@ where
         cases,
         failure_persistence: None,
         rng_seed: RngSeed::Fixed(seed),
-        max_shrink_iters: shrink_iters.unwrap_or(if env.tier == Tier::Quick { 3000 } else { 8000 }),
+        max_shrink_iters: std::env::var("VH_SHRINK_ITERS").ok().and_then(|v| v.parse().ok()).unwrap_or_else(|| shrink_iters.unwrap_or(if env.tier == Tier::Quick { 3000 } else { 8000 })),
         max_global_rejects: 1_000_000,
         verbose: 0,
-        max_shrink_time: 0,
+        // shrinking is time-boxed (it affects only how small the replay is, never the verdict), so that
+        // an expensive property cannot run into the watchdog while minimising a real failure
+        max_shrink_time: if env.tier == Tier::Quick { 120_000 } else { 600_000 },
         ..Config::default()
     };
     let mut runner = TestRunner::new(config);
